@@ -101,6 +101,17 @@ def run_case(a):
                     common.write_tree(os.path.join(root, os.path.dirname(outnorm)), [("shared_api.ts", "// foreign, next to the output directory")])
                 except OSError:
                     pass
+        if idx % 5 == 3 and layout != "equal":
+            # a DIRECTORY that bears the name of a file the run writes, with somebody's files in it: the run cannot write that file (and
+            # may say so); what the directory holds is not the tool's
+            dname = ["events.ts", "index.ts", "commands.ts", "types.ts"][(idx // 5) % 4]
+            dpath = os.path.join(root, outnorm, dname)
+            if not os.path.lexists(dpath):
+                try:
+                    common.write_tree(dpath, [("NOTES.md", "notes kept next to the bindings"), ("drafts/handwritten.md", "draft")])
+                    planted += [os.path.join(outnorm, dname, "NOTES.md"), os.path.join(outnorm, dname, "drafts/handwritten.md")]
+                except OSError:
+                    pass
         st["foreign_planted"] = len(planted)
         preexisting = {p for p in planted}
         path = rnd.choice(["cli", "cli-rel", "cli-rel-deep", "build", "build-member", "init", "cli-config", "init-custom", "init-dotslash", "cli-flags-over-config", "cli-flags-over-config"])
